@@ -320,6 +320,13 @@ def norm_index(ctx, i, n, what="index"):
             raise exc("IndexError")
         return i
     i3, n3 = to_z3(i), to_z3(n)
+    if ctx.in_quant and getattr(ctx, "quant_guards", None):
+        # inside a comprehension over a symbolic sequence: no path split on the element variable; in bounds for every element?
+        g = z3.And(*ctx.quant_guards)
+        if ctx.entails(z3.Implies(g, z3.And(i3 >= -n3, i3 < n3))):
+            if ctx.entails(z3.Implies(g, i3 >= 0)):
+                return i
+            return simp(z3.If(i3 < 0, i3 + n3, i3))
     if ctx.branch(z3.Or(i3 < -n3, i3 >= n3), f"{what}-oob"):
         raise exc("IndexError")
     if ctx.entails(i3 >= 0):
